@@ -88,6 +88,28 @@ def run(tier, out, model_ok, proof):
     # odd paths: empty, '.', '..' and brace segments in every position, three document shapes
     for name, doc in stress.path_shapes(3 if big else 2) + ([] if big else [x for x in stress.path_shapes(3) if x[0].startswith("m")]):
         cases.append(treecorr.single_file_case("ps_" + name, doc.encode()))
+    # the line an error is located on, in every shape: indentation and length around the 200 bytes at
+    # which the quote of an error is cut, at the end of the file and in the middle, for errors of the
+    # scanner, of the directive layer and of the catalog builder
+    ll = []
+    for ind in (0, 1, 3, 150, 190, 196, 197, 198, 199, 200, 201, 203, 250, 400, 1000):
+        for tail in (0, 40, 150, 190, 197, 200, 250):
+            for kind in range(4):
+                for pos in range(3):
+                    ll.append((ind, tail, kind, pos))
+    for i, (ind, tail, kind, pos) in enumerate(ll if big else rng.sample(ll, 400)):
+        pad = (b" " if (ind + tail) % 3 else b"\t") * ind
+        fill = b"x" * tail
+        faulty = [b"FOO" + (b" " + fill if tail else b""),                         # scanner: unknown keyword
+                  b"GET /pets" + (b" // " + fill if tail else b""),                # builder: a second GET /pets
+                  b"SERVER @prod" + (b" // " + fill if tail else b""),             # builder: a second SERVER @prod
+                  b"Body any" + (b" // " + fill if tail else b"")][kind]          # directive layer: Body at the top level
+        head = b"JSIGHT 0.3\nSERVER @prod\n  BaseUrl \"https://h/\"\nGET /pets\n  200 any\n"
+        doc = head + pad + faulty + [b"", b"\n", b"\n  200 any\nGET /more\n  200 any\n" + b"# filler\n" * 30][pos]
+        cases.append(treecorr.single_file_case("ll%d" % i, doc))
+        if i % 7 == 0:
+            c = treecorr.project_case("lli%d" % i, {"root.jst": head + b"INCLUDE inc.jst\n", "inc.jst": pad + faulty + [b"", b"\n", b"\n# x\n"][pos]})
+            cases.append(c)
     # big inputs: time must stay proportional
     big_doc = b"JSIGHT 0.3\n" + b"".join(b"GET /p%d\n  200 any\n" % i for i in range(3000 if big else 800))
     cases.append(treecorr.single_file_case("big1", big_doc))
@@ -157,7 +179,7 @@ def run(tier, out, model_ok, proof):
     out.coverage.update({
         "evaluations": len(cases),
         "distinct_nontrivial": len(set(json.dumps(c["files"], sort_keys=True) for c in cases)),
-        "rule": "every formerly crashing input, a missing and an empty root file through kit.NewJapi, random bytes, directive-like documents, mutated corpus files, random directive sequences, arbitrary MACRO/PASTE graphs (chains into cycles, any declaration order), perturbed structured documents as files and include trees, include graphs with cycles/missing files/directories, every path of up to three segments over {'', '.', '..', 'a', '{id}', '{}', ...} as method path / URL path / JSON-RPC URL, three large inputs, and dependency-shaped projects (chains of 10..40 user types in both orders, allOf/array/macro/include chains, rings, fan-outs, deep JSON; Fibonacci, or- and dense DAGs of types) each in a worker of its own with a 40 s limit; each is built by kit.NewJApiFromFile in a worker whose death is attributed to the case; outcome must be catalog or error; wall time per case is recorded",
+        "rule": "every formerly crashing input, a missing and an empty root file through kit.NewJapi, random bytes, directive-like documents, mutated corpus files, random directive sequences, arbitrary MACRO/PASTE graphs (chains into cycles, any declaration order), perturbed structured documents as files and include trees, include graphs with cycles/missing files/directories, rejected documents whose faulty line has every shape of indentation and length around the 200-byte cut of the error quote (end of file / middle / included file; scanner, directive-layer and builder errors), every path of up to three segments over {'', '.', '..', 'a', '{id}', '{}', ...} as method path / URL path / JSON-RPC URL, three large inputs, and dependency-shaped projects (chains of 10..40 user types in both orders, allOf/array/macro/include chains, rings, fan-outs, deep JSON; Fibonacci, or- and dense DAGs of types) each in a worker of its own with a 40 s limit; each is built by kit.NewJApiFromFile in a worker whose death is attributed to the case; outcome must be catalog or error; wall time per case is recorded",
         "samples": [{n: bytes.fromhex(h).decode("latin1")[:100] for n, h in c["files"].items()} for c in cases[14:17]],
         "outcomes": kinds,
         "dependency_shaped_projects": stress_rows,
